@@ -5,6 +5,7 @@ import TinsModel.Wire.App.TheoremsRtpApi
 import TinsModel.Wire.App.TheoremsDhcp
 import TinsModel.Wire.App.TheoremsDhcpv6
 import TinsModel.Wire.App.TheoremsCodec
+import TinsModel.Wire.App.TheoremsCodec2
 import TinsModel.Wire.App.TheoremsReparse
 import TinsModel.Wire.App.TheoremsApi
 import TinsModel.Wire.App.TheoremsOptApi
